@@ -107,7 +107,9 @@ class AbstractOnlineUpdateVisitor(AbstractAstVisitor):
         return sample_return
 
     def visitLeaf(self, node, online_operator_dict, var_object_dict):
-        if isinstance(node, Constant):
+        if node.name in self.updated:
+            sample_return = self.updated[node.name]
+        elif isinstance(node, Constant):
             sample_return = self.visitConstant(node, online_operator_dict, var_object_dict)
         elif isinstance(node, Variable):
             sample_return = self.visitVariable(node, online_operator_dict, var_object_dict)
